@@ -786,11 +786,119 @@ pub fn gen_c17(tier: Tier, seed: u64) -> Case {
     }
 }
 
+/// Handle-order scenario: database handles, clones, keyspace handles, snapshots and iterators are
+/// dropped in a drawn order; while any of them lives a second open must be refused with Locked,
+/// after the last one it must succeed at once and show every acknowledged write.
+fn handle_order(case: &Case, dir: &Path, o: &mut Outcome) {
+    use fjall::Readable;
+    enum H {
+        Db(#[allow(dead_code)] fjall::Database),
+        Sw(#[allow(dead_code)] fjall::SingleWriterTxDatabase),
+        Opt(#[allow(dead_code)] fjall::OptimisticTxDatabase),
+        Ks(#[allow(dead_code)] fjall::Keyspace),
+        Snap(#[allow(dead_code)] fjall::Snapshot),
+        Iter(#[allow(dead_code)] fjall::Iter),
+    }
+    let mut r = Rng::stream(case.seed, "handles");
+    let d = dir.join("handles");
+    let mut handles: Vec<H> = vec![];
+    let mut expect: std::collections::BTreeMap<Vec<u8>, Vec<u8>> = Default::default();
+    let res = std::panic::catch_unwind(std::panic::AssertUnwindSafe(|| -> Result<(), Violation> {
+        let mut inst = crate::inst::Instance::open(&d, &case.cfg).map_err(|e| Violation::new("open-failed", e))?;
+        inst.open_ks(&case.cfg, 0, &case.cfg.opts[0]).map_err(|e| Violation::new("unexpected-error", e))?;
+        let ks = inst.k(0).unwrap().clone();
+        let mut rotations = 0;
+        for i in 0..r.range(1, 6) {
+            let k = format!("h{i}").into_bytes();
+            let v = format!("v{i}-{}", r.below(1000)).into_bytes();
+            ks.insert(&k[..], &v[..]).map_err(|e| Violation::new("unexpected-error", format!("{e:?}")))?;
+            expect.insert(k, v);
+            // queued background work at drop time, but never enough sealed memtables to make
+            // a write wait for a worker that does not exist
+            if rotations < 2 && r.chance(1, 3) {
+                rotations += 1;
+                let _ = ks.rotate_memtable();
+            }
+        }
+        // a population of handles of every kind
+        for _ in 0..r.range(1, 3) {
+            handles.push(H::Db(inst.db.clone()));
+        }
+        for _ in 0..r.range(1, 3) {
+            handles.push(H::Ks(ks.clone()));
+        }
+        if r.chance(1, 2) {
+            handles.push(H::Snap(inst.db.snapshot()));
+        }
+        if r.chance(1, 2) {
+            handles.push(H::Iter(ks.iter()));
+        }
+        if let Some(t) = &inst.sw {
+            handles.push(H::Sw(t.clone()));
+        }
+        if let Some(t) = &inst.opt {
+            handles.push(H::Opt(t.clone()));
+        }
+        drop(ks);
+        drop(inst);
+        // drop in a drawn order
+        while !handles.is_empty() {
+            // snapshots and iterators do not pin the directory lock by themselves
+            let pins = handles.iter().any(|h| !matches!(h, H::Snap(_) | H::Iter(_)));
+            let digest = crate::fsutil::tree_digest(&d);
+            let second = crate::inst::Instance::open(&d, &case.cfg);
+            o.stats.inc("handle_order_second_opens");
+            match (&second, pins) {
+                (Err(e), true) if e.contains("Locked") => {
+                    if case.cfg.workers == 0 && crate::fsutil::tree_digest(&d) != digest {
+                        return Err(Violation::new("single-instance", "refused second open modified the directory".into()));
+                    }
+                }
+                (Err(e), true) => return Err(Violation::new("single-instance", format!("second open failed with {e}, expected Locked"))),
+                (Ok(_), true) => {
+                    let kinds: Vec<&str> = handles.iter().map(|h| match h { H::Db(_) => "Database", H::Sw(_) => "SingleWriterTxDatabase", H::Opt(_) => "OptimisticTxDatabase", H::Ks(_) => "Keyspace", H::Snap(_) => "Snapshot", H::Iter(_) => "Iter" }).collect();
+                    return Err(Violation::new("single-instance", format!("a second open succeeded while these handles were still alive: {kinds:?}")));
+                }
+                (_, false) => {}
+            }
+            drop(second);
+            let i = r.usize(handles.len());
+            handles.remove(i);
+        }
+        // last handle gone: open must succeed at once with everything acknowledged
+        let mut inst = crate::inst::Instance::open(&d, &case.cfg).map_err(|e| Violation::new("single-instance", format!("open after the last handle was dropped failed: {e}")))?;
+        inst.open_ks(&case.cfg, 0, &case.cfg.opts[0]).map_err(|e| Violation::new("unexpected-error", e))?;
+        let ks = inst.k(0).unwrap().clone();
+        let snap = inst.db.snapshot();
+        for (k, v) in &expect {
+            let got = snap.get(&ks, k).map_err(|e| Violation::new("unexpected-error", format!("{e:?}")))?;
+            if got.as_deref() != Some(&v[..]) {
+                return Err(Violation::new("single-instance", format!("after dropping every handle and reopening, key {} reads {:?}", crate::model::show(k), got.map(|x| crate::model::show(&x)))));
+            }
+        }
+        Ok(())
+    }));
+    match res {
+        Ok(Ok(())) => {}
+        Ok(Err(v)) => o.violation = Some(v),
+        Err(_) => {
+            let (loc, msg) = crate::LAST_PANIC.lock().unwrap().clone().unwrap_or_default();
+            o.violation = Some(Violation::new("panic", format!("panic in library code at {loc}: {msg}")));
+        }
+    }
+    drop(handles);
+    o.evals += 1;
+}
+
 pub fn run_c17(case: &Case, dir: PathBuf) -> Outcome {
     // the lifecycle part is an ordinary sequential run (SecondOpen / Reopen ops carry the checks)
-    let live = dir.clone();
+    let live = dir.join("main");
     let mut o = super::seqprops::run_seq(case, live.clone());
     if o.violation.is_some() || o.harness_error.is_some() {
+        return o;
+    }
+    handle_order(case, &dir, &mut o);
+    if o.violation.is_some() {
         return o;
     }
     let Fault::Marker { bytes } = &case.fault else {
